@@ -14,3 +14,6 @@ func (srv *ClientIO) VerifAwait(id clientpb.MessageID) <-chan error {
 	srv.mut.Unlock()
 	return ch
 }
+
+// VerifService returns the Consensus service implementation of the server (the gorums handlers).
+func VerifService(srv *Server) *serviceImpl { return &serviceImpl{srv} }
